@@ -1,6 +1,6 @@
 PID = "C02"
 WORKER = "w_c02"
-HEADER = "From Coq Require Import List ZArith QArith Qcanon.\nFrom Dimod Require Import Base.Util Model.Poly Model.HPoly Model.ChkC02.\nFrom Dimod Require Model.Adj Model.SSet Model.PyBqm Gen.Gen_PyBQM.\nImport ListNotations."
+HEADER = "From Coq Require Import List ZArith QArith Qcanon.\nFrom Dimod Require Import Base.Util Model.Poly Model.HPoly Model.ChkC02.\nFrom Dimod Require Model.Adj Model.SSet Model.PyBqm Gen.Gen_PyBQM Model.Expr Model.VartypeOps.\nImport ListNotations."
 CHECK_FN = "check"
 N_QUICK = 2400
 N_THOROUGH = 60000
@@ -9,8 +9,8 @@ RULE = ("random models with dyadic coefficients converted through every entry po
         "live .spin/.binary views read and written incl. after the base changed vartype in place, QM/CQM change_vartype and "
         "spin_to_binary, BinaryPolynomial.to_spin/to_binary, to_ising/to_qubo/from_*/ising_to_qubo/qubo_to_ising, "
         "SampleSet.change_vartype); non-trivial = something is converted and the model has terms; distinct by case JSON")
-TRUSTED = ["model: coq/theories/Model/{Poly,HPoly,ChkC02}.v",
+TRUSTED = ["model: coq/theories/Model/{Poly,HPoly,View,ChkC02}.v; code-shaped models Model/{AdjSubstAll,PyBqm,IsingQubo,SSetVartype}.v (abc.h substitute_variables on the raw adjacency structure, pyBQM.change_vartype over multipliers generated from pybqm.py by translators/pybqm_multipliers.py, the dict loops of ising_to_qubo/qubo_to_ising, SampleSet.change_vartype), each proved energy preserving and compared with the observed raw state / dicts / rows inside Coq",
            "float arithmetic of the implementation is exact on the generated dyadic data (not verified)",
-           "SampleSet.change_vartype rows/energies are compared in Python with exact integers/fractions"]
+           "SampleSet.change_vartype rows/energies are compared in Python with exact integers/fractions and, as SSConv cases, with Model/SSetVartype.v inside Coq"]
 ASSUMPTIONS = ["IEEE-754 arithmetic is exact on the small dyadic coefficients generated; 'up to floating-point rounding' is not examined beyond that"]
 PARTIAL = []
